@@ -141,7 +141,15 @@ def f_split(r: random.Random):
 
 
 def f_trim(r: random.Random):
-    s = r.choice(WORDS + UNI + ["xyhixy", "--a--", "\t tab"])
+    s = r.choice(WORDS + UNI + ["xyhixy", "--a--", "\t tab", "  both  ", "xxaxx"])
+    side = r.random()
+    if side < 0.3:
+        # the one-sided forms
+        fn, strip = r.choice([("LTRIM", str.lstrip), ("RTRIM", str.rstrip)])
+        if r.random() < 0.5:
+            return f"{fn}({q(s)})", strip(s, " "), f"{fn.lower()}/spaces"
+        chars = r.choice(["x", "xy", " ", "-", "ab", "a "])
+        return f"{fn}({q(s)}, {q(chars)})", strip(s, chars), f"{fn.lower()}/characters"
     if r.random() < 0.5:
         return f"TRIM({q(s)})", s.strip(" "), "spaces"
     chars = r.choice(["x", "xy", " ", "-", "ab", "a "])
@@ -363,7 +371,7 @@ def f_cast(r: random.Random):
 FORMS = {"regexp_replace": f_regexp_replace, "regexp_substr": f_regexp_substr, "split": f_split, "trim": f_trim, "to_date": f_to_date,
          "to_timestamp": f_to_timestamp, "to_decimal": f_to_decimal, "dateadd": f_dateadd, "datediff": f_datediff, "sha2": f_sha2,
          "equal_null": f_equal_null, "cast": f_cast}
-SPECIAL = ["random_seed", "sample_seed", "identifier", "values_columns", "array_agg", "alias_in_join", "nulls"]
+SPECIAL = ["random_seed", "sample_seed", "identifier", "values_columns", "array_agg", "alias_in_join", "nulls", "created_database"]
 
 
 def gen_cases(tier: str, seed: int):
@@ -566,6 +574,26 @@ def _special(case: dict, env: core.Env) -> None:
         if a100["ok"] and len(a100["rows"]) != 40:
             env.witness("C10/sample/hundred-percent-drops-rows", str(len(a100["rows"])))
         env.nontrivial(("sample", p, s))
+    elif w == "created_database":
+        # the rewritten constructs work the same in a database made by a CREATE DATABASE statement (not by connect)
+        name = f"MADE{r.randrange(10**6)}"
+        conn2 = _state["fs"].connect()
+        c2 = conn2.cursor()
+        env.count("cmp_value")
+        for s_ in (f"CREATE DATABASE {name}", f"CREATE SCHEMA {name}.S", f"USE SCHEMA {name}.S", "CREATE TABLE TT (A INT, B INT)", "INSERT INTO TT VALUES (1, 1), (2, NULL), (NULL, NULL)"):
+            o = core.run_stmt(c2, s_)
+            if not o["ok"]:
+                env.witness("C10/created-database/setup-rejected", f"{s_}: {o['exc']['msg'][:200]}")
+                return
+        for expr_, want in (("SELECT COUNT(*) FROM TT WHERE EQUAL_NULL(A, B)", [(2,)]), ("SELECT EQUAL_NULL(1, NULL), EQUAL_NULL(NULL, NULL)", [(False, True)]),
+                            ("SELECT REGEXP_REPLACE('abc', 'b', 'x'), TO_DECIMAL('1.5', 10, 2), DATEADD(day, 1, '2020-01-01'::DATE)", [("axc", D("1.50"), datetime.date(2020, 1, 2))])):
+            o = core.run_stmt(c2, expr_)
+            if not o["ok"]:
+                env.witness(f"C10/created-database/rejected/{expr_.split('(')[0].split()[-1]}", f"{expr_}: {o['exc']['msg'][:200]}")
+            elif o["rows"] != want:
+                env.witness("C10/created-database/value", f"{expr_}: {o['rows']} expected {want}")
+        c2.execute(f"USE DATABASE DB1")
+        env.nontrivial(("created_database", name))
     elif w == "identifier":
         name = r.choice(["nums", "NUMS", "Nums", "db1.s1.nums", "s1.nums"])
         o = core.run_stmt(cur, f"SELECT COUNT(*) FROM IDENTIFIER({q(name)})")
